@@ -12,6 +12,10 @@ MUT = {"dict": ["setitem_new", "setitem_replace", "delitem", "update_two_new", "
        "list": ["append", "extend", "insert", "setitem", "delitem", "reset", "clear", "pop"]}
 
 
+PRIVATE_READS = {"dict": ["getitem", "call", "len"], "list": ["getitem", "call", "len"]}
+PRIVATE_READS_T = {"dict": ["getitem", "get", "call", "len", "iter", "contains", "keys", "eq_plain"], "list": ["getitem", "call", "len", "iter", "contains", "index", "getslice"]}
+
+
 def specs(tier):
     out = []
     fams = ["BufferedJSON", "MemoryBufferedJSON"] + (["BufferedJSONAttr", "MemoryBufferedJSONAttr"] if tier == "thorough" else [])
@@ -24,6 +28,12 @@ def specs(tier):
                     for i, a in enumerate(t):
                         for b in t[i:]:
                             out.append({"fam": fam, "which": which, "relation": rel, "op1": a, "op2": b, "ctx": ["backend", cap], "variants": tier == "thorough"})
+                # reads through an object no other thread is using (its own object on the
+                # same file, or on another file) next to a mutator on the other object
+                for rel in ("two", "two-files"):
+                    for r in PRIVATE_READS[which] if tier == "quick" else PRIVATE_READS_T[which]:
+                        for b in t:
+                            out.append({"fam": fam, "which": which, "relation": rel, "op1": r, "op2": b, "ctx": ["backend", cap], "variants": tier == "thorough"})
     return out
 
 
@@ -48,3 +58,5 @@ ASSUMPTIONS = [
     "conflict-serializability of the recorded events is a sufficient condition; sat witnesses count only after replay on real threads (a hang counts as a violation)",
 ]
 OUTSIDE = ["more than 2 threads / 1 operation per thread", "capacities other than default/0/1", "reads on shared objects (C14)"]
+BOUNDS["quick"]["private_reads"] = PRIVATE_READS
+BOUNDS["thorough"]["private_reads"] = PRIVATE_READS_T
